@@ -33,6 +33,9 @@ from . import C08
 import copy
 for o in C08.STREAM:
     d = copy.deepcopy(o); d["id"] = d["id"].replace("C08.stream.", "C19.tls_io_quiet."); d["defs"] = list(d.get("defs", [])) + ["-DMONITOR"]; d.update(MON)
+    d["models"] = ["models/leak_monitor.c", "models/leak_monitor_tls.c"]
+    d["remove"] = dict(d["remove"]); d["remove"]["tls_trace.c"] = ["tls_record_print", "tls13_record_print", "tls_encrypted_record_print", "tls_handshake_print", "tls_alert_print", "tls_application_data_print",
+                                                                  "tls_pre_master_secret_print", "tls_random_print", "tls_secrets_print"]
     d["title"] = "no data dump on any path (incl. every error path) of: " + d["title"]; d["stubs"] = d["stubs"] + ["diagnostic monitor"]
     OBLIGATIONS.append(d)
 NOTE = "C19: secrets on diagnostic channels."
